@@ -722,6 +722,10 @@ impl ActionContext for &Server {
         self.database.graph().node(node_id).node_key()
     }
 
+    fn key_exists(&self, key: &Key) -> bool {
+        self.database.graph().maybe_key(key).is_some()
+    }
+
     fn collect(&self, key: &Key) -> Tree {
         self.database.graph().collect(key)
     }
